@@ -73,7 +73,11 @@ def run_block_ops(desc, ops):
                 outs.append(as_nat_list(b.getValues(op[1], op[2])))
             elif op[0] == 'set':
                 vals = list(op[2])
-                b.setValues(op[1], vals[0] if len(op) > 3 and op[3] == 'scalar' else vals)
+                if len(op) > 4 and op[3] == 'dict':
+                    # the dict form of a sparse block's setValues: {address: value}; the first argument is not part of the addresses
+                    b.setValues(op[4], {op[1]: vals[0]})
+                else:
+                    b.setValues(op[1], vals[0] if len(op) > 3 and op[3] == 'scalar' else vals)
                 # the block must hold its own cells: changing the caller's list afterwards must not reach into it
                 d0 = dump_block(b)
                 for i in range(len(vals)):
@@ -136,6 +140,10 @@ def gen_ops(rng, desc, n, raw):
             ops.append(['get', a, cnt])
         elif r < 0.8:
             ops.append(['set', a, [rng.randrange(0, 65536) for _ in range(max(cnt, 0) if raw else max(cnt, 1))]])
+            if desc['kind'] == 'sparse' and desc.get('items') and rng.random() < 0.3:
+                # the same write of ONE populated cell in the dict form, given with an unrelated first argument
+                k = rng.choice(desc['items'])[0]
+                ops[-1] = ['set', k, [rng.randrange(0, 65536)], 'dict', rng.choice([0, 1, a, 7, 1000])]
         elif r < 0.9:
             # a bare scalar instead of a list (the blocks wrap it): zero is the interesting one
             ops.append(['set', a, [rng.choice([0, 0, 1, rng.randrange(0, 65536)])], 'scalar'])
@@ -149,7 +157,7 @@ def gen_ops(rng, desc, n, raw):
 # ------------------------------------------------------------------ checks
 def check_block_cases(ctx, rep, cases):
     """cases: list of (desc, ops, window).  Correspondence (all ops) + property oracle (in-scope prefix)."""
-    q = [{'op': 'store', 'block': d, 'ops': ops, 'window': list(w)} for d, ops, w in cases]
+    q = [{'op': 'store', 'block': d, 'ops': [o[:3] if len(o) > 4 and o[3] == 'dict' else o for o in ops], 'window': list(w)} for d, ops, w in cases]
     answers = ctx.driver.query(q)
     for (desc, ops, w), ans in zip(cases, answers):
         outs, dump, _ = run_block_ops(desc, ops)
